@@ -120,6 +120,7 @@ ARGSETS = [
     (["I", "IV", "V7"], 0), (["I", "IV", "V7"], 1, True), (["IIm", "Vdim7", "I"], 1), (["I", "bVIIM7"], "C"), ("Am7",), (["Am7", "C"],),
     (["C", "E", "G"], "C"), (["C", "E", "G"], True), (["C", "E", "G"], "C", True), (4,), (4, 2), (3, "b"), ((6, 8),), (["C", "G"],),
     ("I", "C"), (["A", "Bb", "E", "F#", "G"],), (["E", "G", "C"], False, True), (["C#"],), ([],), (["C#"], True), (["G", "B"], True),
+    ("NC",), ("N.C.",), (["NC", "C", "N.C."],), ("",), ("C/E",), ("Dm|G",),
 ]
 # every list length the recognisers take, with every combination of their flags (shorthand, no_inversion, no_polychords): a
 # function that rotates or trims the caller's list does so only on some paths
@@ -178,6 +179,19 @@ def method_aliasing():
         d = {"velocity": 70}; d0 = dict(d)
         x = Note("E", 4); x.set_note("G", 5, d, **kw) if kw else x.set_note("G", 5, d)
         if d != d0: bad.append("Note.set_note(name, octave, dynamics dict, %s)" % sorted(kw))
+    # the track list handed to a MIDI file object
+    for setter in ("ctor", "attr"):
+        a, b, c_ = midi_track.MidiTrack(), midi_track.MidiTrack(), midi_track.MidiTrack()
+        a.play_Note(Note("C")); c_.play_Note(Note("E"))
+        b.reset() if hasattr(b, "reset") else None
+        lst = [a, b, c_]; keep = list(lst)
+        mf = midi_file_out.MidiFile(lst) if setter == "ctor" else midi_file_out.MidiFile()
+        if setter == "attr": mf.tracks = lst
+        try:
+            mf.get_midi_data()
+        except Exception:
+            pass
+        if lst != keep: bad.append("MidiFile(%s).get_midi_data() changed the caller's track list (%d of %d left)" % (setter, len(lst), len(keep)))
     # sample lists handed to the frequency analysis
     import math
     data = [int(8000 * math.sin(2 * math.pi * 440 * i / 44100.0)) for i in range(2048)]
